@@ -174,7 +174,8 @@ func (w *c15World) render() (map[string]string, map[string][]string) {
 			l = append(l, h)
 			for _, f := range d.fields {
 				fieldAt[f] = append(fieldAt[f], fmt.Sprintf("%s:%d", d.file, len(l)))
-				l = append(l, "---@field "+f+" number")
+				// documented scope modifiers: public / protected / private before the field name
+				l = append(l, "---@field "+[]string{"", "", "public ", "protected ", "private "}[(len(f)+len(l))%5]+f+" number")
 			}
 			l = append(l, fmt.Sprintf("local %s_%d = {}", c.name, di), "")
 			lines[d.file] = l
